@@ -221,13 +221,23 @@ static Family sock_family(const std::string &tier)
     f.cfgs.push_back(c);
   }
   {
+    // the application's own callbacks on every new socket; either may reject it
+    Cfg c        = cfg("udp-2srv-socketcallbacks", 2, 1, 0);
+    c.socket_cbs = true;
+    f.cfgs.push_back(c);
+    Cfg d        = cfg("tcp-socketcallbacks-inprogress", 1, 2, ARES_FLAG_USEVC);
+    d.socket_cbs = true;
+    d.connect_mode = 1;
+    f.cfgs.push_back(d);
+  }
+  {
     Cfg c              = cfg("tcp-pendingwrite", 1, 2, ARES_FLAG_USEVC);
     c.pending_write_cb = true;
     f.cfgs.push_back(c);
   }
   f.req_menu = { 0, 4, 2, 18 };
   f.replies  = { RK_DATA, RK_SERVFAIL, RK_TC };
-  f.faults   = { FS_SOCKET, FS_SETSOCKOPT, FS_BIND, FS_CONNECT, FS_GETSOCKNAME, FS_SEND_REFUSED, FS_SEND_WOULDBLOCK, FS_SEND_SHORT, FS_RECV_RESET, FS_SEND_EINTR, FS_RECV_EINTR };
+  f.faults   = { FS_SOCKET, FS_SETSOCKOPT, FS_BIND, FS_CONNECT, FS_GETSOCKNAME, FS_SEND_REFUSED, FS_SEND_WOULDBLOCK, FS_SEND_SHORT, FS_RECV_RESET, FS_SEND_EINTR, FS_RECV_EINTR, FS_SOCKCFGCB, FS_SOCKCB };
   f.setservers = { 1, 2 };
   f.evmask |= EVBIT(EV_TCP) | EVBIT(EV_WRITECB);
   f.default_oracles = "C10";
@@ -772,6 +782,7 @@ static Family cookie_family(const std::string &tier)
     Cfg c      = cfg("1srv-edns-from-two-badcookie-resends", 1, 3, ARES_FLAG_EDNS);
     c.auto_io  = true;
     c.preamble = { { EV_REQ, 0, 0 }, { EV_REPLY, 0, RK_BADCOOKIE }, { EV_REPLY, 1, RK_BADCOOKIE } };
+    if (tier != "quick") c.depth_cut = 1; // three events deep already
     f.cfgs.push_back(c);
   }
   f.reqs.push_back(rq(2, "a.example.com"));
@@ -877,6 +888,7 @@ const Family *find_family(const std::string &name, const std::string &tier)
       { "fdreuse", [](Cfg &c) { c.reuse_fds = true; } },
       { "tries1", [](Cfg &c) { c.tries = 1; } },
       { "nosearch", [](Cfg &c) { c.flags |= ARES_FLAG_NOSEARCH; } },
+      { "sockcbs", [](Cfg &c) { c.socket_cbs = true; } },
     };
     const int ntg = (int)(sizeof(tg) / sizeof(tg[0]));
     f.cfgs.push_back(cfg("base", 2, 2, 0));
@@ -896,8 +908,8 @@ const Family *find_family(const std::string &name, const std::string &tier)
       }
     f.req_menu   = { 0, 4, 2, 14, 12 }; // incl. a query whose callback cancels the channel and one whose callback starts a request
     f.replies    = { RK_DATA, RK_SERVFAIL, RK_TC };
-    f.faults     = { FS_SEND_REFUSED, FS_RECV_RESET };
-    f.fault_skips.clear();
+    f.faults     = { FS_SEND_REFUSED, FS_RECV_RESET, FS_SOCKCB };
+    f.fault_skips = { 0 };
     f.fault_skip_sites.clear();
     f.setservers = { 1 };
     f.max_req    = 2;
